@@ -12,7 +12,7 @@ Mirrors, statement by statement,
 (`BSplineBasis.raise_order`, `knot_spans`, `continuity`, `greville` are in `Model/BasisOps.lean`.)
 
 Return-value conventions are part of the model: `Ret.self` = the (mutated) receiver is returned,
-`Ret.none` = Python `None`, `Ret.new` = a freshly constructed object (receiver untouched).
+`Ret.none` = Python `None` (no modelled method returns it any more; kept for the protocol), `Ret.new` = a freshly constructed object (receiver untouched).
 
 `np.linalg.inv` / `scipy…spsolve` are modelled by *checked* exact linear algebra: the result of
 the exact Gauss–Jordan elimination of `Model/LinAlg.lean` is accepted only after the model has
@@ -250,11 +250,12 @@ def ofCpsMat (M : Mat K) (nc : ℕ) : Tensor K :=
     data := Array.ofFn (n := M.size * nc) (fun idx => M.get (idx.val / nc) (idx.val % nc)) }
 
 /-- `Curve.raise_order(amount, direction=None)` (the `direction` argument is ignored by the code).
-    `amount == 0` returns `None`; otherwise the receiver is returned after
-    `spsolve(N_new, N_old @ controlpoints)`. -/
+    `amount == 0` returns the receiver unchanged (since fix 6ca09d8; the pinned snapshot returned
+    `None`); otherwise the receiver is returned after `spsolve(N_new, N_old @ controlpoints)`,
+    reshaped to `(-1, ncomp)` (fix 2d51429: `spsolve` returns a 1-D array for one component). -/
 def curveRaiseOrder (o : Obj K) (tol : K) (amount : Int) : PyM (Ret × Obj K) :=
   if amount < 0 then .error .value
-  else if amount = 0 then .ok (.none, o)
+  else if amount = 0 then .ok (.self, o)
   else
     let b := o.basis 0
     match b.raiseOrder tol amount.toNat with
